@@ -366,6 +366,8 @@ def detach_all():
 
 def load_known_findings():
     path = os.path.join(VERIF, "known_findings.json")
+    if os.environ.get("VERIF_REPO") and os.environ.get("VERIF_KNOWN_FINDINGS"):
+        path = os.environ["VERIF_KNOWN_FINDINGS"]      # self-validation of the KNOWN-FINDING plumbing on a scratch copy only
     if not os.path.exists(path):
         return []
     with open(path) as fh:
